@@ -1,8 +1,47 @@
-From Coq Require Import NArith List.
-Require Import MQ.Arith64 MQ.Types MQ.State MQ.Model MQ.Exec.
+(* C01 Exactly-once delivery of every accepted value to every stream.
+   Proved here, for every reachable state with fewer than 2^62 handles ever created, all configurations,
+   populations and schedules: the head counter equals the number of claimed values (mod 2^63), every step either
+   leaves the claim log alone or appends exactly the value of the claiming send to it (so a claimed position is
+   claimed once, by one send, and refused sends claim nothing), including the single-writer path that stores the
+   counter without a compare-exchange.  Not proved: that what a stream delivers is the log segment from its start
+   position (needs the slot/tag/cursor invariant, see MANIFEST level_note). *)
+From Coq Require Import NArith List Bool.
+Require Import MQ.Arith64 MQ.Arith64Facts MQ.Types MQ.State MQ.Model MQ.Exec MQ.Reach MQ.Fields MQ.Ctl MQ.Count
+  MQ.WritersStep MQ.InvWriters MQ.HeadStep MQ.InvHead.
 Import ListNotations.
 Open Scope N_scope.
-Theorem tmp_init_head : head (sh (init false)) = 0.
-Proof. reflexivity. Qed.
-Check tmp_init_head : head (sh (init false)) = 0.
-Print Assumptions tmp_init_head.
+
+Theorem C01_head_counts_claims : forall c fut s,
+  reach c fut s -> lenN (ags s) < B62 -> head (sh s) = lenN (g_log (sh s)) mod MASK_IND.
+Proof. exact head_is_log_length. Qed.
+Check C01_head_counts_claims : forall c fut s,
+  reach c fut s -> lenN (ags s) < B62 -> head (sh s) = lenN (g_log (sh s)) mod MASK_IND.
+Print Assumptions C01_head_counts_claims.
+
+Theorem C01_claim_appends_own_value : forall c me A S o, micro c me A S = Some o ->
+  (head (o_s o) = head S /\ g_log (o_s o) = g_log S) \/
+  ((a_pc A = P5 \/ (a_pc A = M5 /\ head S = r_h (a_r A))) /\
+   head (o_s o) = next_count (r_h (a_r A)) /\ g_log (o_s o) = g_log S ++ [r_v (a_r A)]).
+Proof. exact micro_head. Qed.
+Check C01_claim_appends_own_value : forall c me A S o, micro c me A S = Some o ->
+  (head (o_s o) = head S /\ g_log (o_s o) = g_log S) \/
+  ((a_pc A = P5 \/ (a_pc A = M5 /\ head S = r_h (a_r A))) /\
+   head (o_s o) = next_count (r_h (a_r A)) /\ g_log (o_s o) = g_log S ++ [r_v (a_r A)]).
+Print Assumptions C01_claim_appends_own_value.
+
+Theorem C01_single_writer_head_current : forall c fut s a A,
+  reach c fut s -> lenN (ags s) < B62 -> get (ags s) a = Some A ->
+  pp_pc (a_pc A) (a_stack A) = true -> r_h (a_r A) = head (sh s).
+Proof.
+  intros c fut s a A R Small. exact (proj1 (head_mreach c fut s (reach_mreach c fut s R) Small) a A).
+Qed.
+Check C01_single_writer_head_current : forall c fut s a A,
+  reach c fut s -> lenN (ags s) < B62 -> get (ags s) a = Some A ->
+  pp_pc (a_pc A) (a_stack A) = true -> r_h (a_r A) = head (sh s).
+Print Assumptions C01_single_writer_head_current.
+
+Example C01_witness :
+  let c := mk_cfg MPMC 2 WBusy in
+  let s := reach_by c false (Start 0 (CTrySend 5) :: repeat (Step 0) 6 ++ Start 0 (CTrySend 6) :: repeat (Step 0) 6) in
+  head (sh s) = 2 /\ g_log (sh s) = [0; 1].
+Proof. vm_compute. split; reflexivity. Qed.
